@@ -182,6 +182,7 @@ func run(r *report.Run, cc *sim.ChainCase) *report.Failure {
 				if hit && !mctx.Benign {
 					r.NonTrivial(fork + "|" + id)
 					r.Class("rejected-at-target:" + family(id))
+					r.Class("mutation-rejected-by-reference:" + id)
 					r.Hit("family:" + family(id))
 					r.Sample(id, func() any {
 						return map[string]any{"fork": fork, "slot": slot, "mutation": id, "reference_says": refErr.Error(), "library_says": trunc(fmt.Sprint(lerr)), "block_ops": info.Kinds}
@@ -360,6 +361,23 @@ func TestCheck(t *testing.T) {
 	}
 	if !r.Search(t, "tour-queued-activations", 100, nt, func(rt *rapid.T) (any, *report.Failure) {
 		cc := tourQueuedActivations(rt)
+		return cc, run(r, cc)
+	}) {
+		return
+	}
+	// ---- tour: capella/deneb registries with every (credential, balance-vs-MAX, effective-balance) mix,
+	// top-ups into the hysteresis band, exits -> each block gets the relaxed-predicate withdrawal mutations
+	if !r.Search(t, "tour-withdrawal-edges", 101, nt*2, func(rt *rapid.T) (any, *report.Failure) {
+		cc := sim.TourWithdrawalEdges(rt, []string{"PAY-WD-PARTIAL-LOW-EB", "PAY-WD-PARTIAL-NOCRED", "PAY-WD-PARTIAL-AT-MAX", "PAY-WD-FULL-EARLY",
+			"PAY-WD-FULL-NOCRED", "PAY-WD-SWEEP-PLUS-ONE", "PAY-WD-COUNT", "PAY-WD-FIELD", "BYTES"})
+		return cc, run(r, cc)
+	}) {
+		return
+	}
+	// ---- tour: many consecutive deposit-carrying blocks, each hit with the deposit mutations
+	if !r.Search(t, "tour-deposits", 102, nt*2, func(rt *rapid.T) (any, *report.Failure) {
+		cc := sim.TourDeposits(rt, []string{"DEP-PROOF", "DEP-PROOF-LEAFSIDE", "DEP-DATA-FIELD", "DEP-AMOUNT", "DEP-WRONG-INDEX", "DEP-COUNT-SHORT",
+			"DEP-REPLAY-PROCESSED", "DEP-COUNT-OVER", "BYTES"})
 		return cc, run(r, cc)
 	}) {
 		return
